@@ -36,6 +36,7 @@ type ParserFacts struct {
 	Slots     []SlotStore
 	typeInfo  map[string]nodeTypeInfo
 	treeTypes map[*types.Named]bool
+	prodDepth int        // depth of producers followed through forwarded lists
 	bind      *fnBinding // set while a value is judged inside a reader that was handed functions
 }
 
